@@ -244,6 +244,29 @@ func (f *Frame) computeOrdinals() {
 // phis of enclosing loops first, then parameters, then named locals (Alloc
 // comments / phis with that comment that dominate the point).
 func (f *Frame) lookupName(name string, at *ssa.BasicBlock, atI ssa.Instruction) (Val, bool) {
+	if k := strings.Index(name, "$"); k > 0 {
+		// x$N: the header phi named x of loop N (to refer to an enclosing loop's variable)
+		var ord int
+		if _, err := fmt.Sscanf(name[k+1:], "%d", &ord); err == nil {
+			for _, li := range f.loops {
+				if li.ord != ord {
+					continue
+				}
+				for _, in := range li.header.Instrs {
+					phi, ok := in.(*ssa.Phi)
+					if !ok {
+						break
+					}
+					if phi.Comment == name[:k] {
+						if v, ok := f.env[phi]; ok {
+							return v, true
+						}
+					}
+				}
+			}
+		}
+		return Val{}, false
+	}
 	for i, p := range f.fn.Params {
 		if p.Name() == name && i < len(f.params) {
 			return f.params[i], true
@@ -264,6 +287,7 @@ func (f *Frame) lookupName(name string, at *ssa.BasicBlock, atI ssa.Instruction)
 	}
 	// phis / allocs with this comment in dominating blocks; prefer the closest dominator
 	var best ssa.Value
+	bestIsCell := false
 	bestDepth := -1
 	for _, b := range f.fn.Blocks {
 		if !(b == at || b.Dominates(at)) {
@@ -275,6 +299,7 @@ func (f *Frame) lookupName(name string, at *ssa.BasicBlock, atI ssa.Instruction)
 				break
 			}
 			var v ssa.Value
+			isCell := false
 			switch x := in.(type) {
 			case *ssa.Phi:
 				if x.Comment == name {
@@ -283,18 +308,22 @@ func (f *Frame) lookupName(name string, at *ssa.BasicBlock, atI ssa.Instruction)
 			case *ssa.Alloc:
 				if x.Comment == name {
 					v = x
+					isCell = true // the variable's storage: its value has to be loaded
 				}
 			case *ssa.DebugRef:
 				if x.Object() != nil && x.Object().Name() == name {
 					v = x.X
-					if x.IsAddr {
-						v = x.X
-					}
+					isCell = x.IsAddr
 				}
 			}
 			if v != nil {
-				if _, bound := f.env[v]; bound && d >= bestDepth {
+				_, bound := f.env[v]
+				if _, isConst := v.(*ssa.Const); isConst {
+					bound = true
+				}
+				if bound && d >= bestDepth {
 					best = v
+					bestIsCell = isCell
 					bestDepth = d
 				}
 			}
@@ -303,15 +332,15 @@ func (f *Frame) lookupName(name string, at *ssa.BasicBlock, atI ssa.Instruction)
 	if best == nil {
 		return Val{}, false
 	}
-	val := f.env[best]
-	if a, ok := best.(*ssa.Alloc); ok {
+	val := f.val(best)
+	if bestIsCell {
 		st := f.cur()
-		if st == nil {
+		pt, ok := best.Type().Underlying().(*types.Pointer)
+		if st == nil || !ok {
 			return Val{}, false
 		}
-		return f.vc.load(st, val, a.Type().Underlying().(*types.Pointer).Elem()), true
+		return f.vc.load(st, val, pt.Elem()), true
 	}
-	// DebugRef with IsAddr: value is an address
 	return val, true
 }
 
@@ -941,6 +970,25 @@ func (f *Frame) enterLoopWithFrame(li *loopInfo, st *State, guard Term) *State {
 		}
 		f.env[phi] = nv
 	}
+	// the frame of a generic iteration: the listed expressions evaluated with the loop
+	// variables of that iteration (e.g. elems(s) of a slice that the loop re-allocates)
+	{
+		env2 := f.specEnv(nst, h, nil)
+		for _, m := range f.con.LoopMod[li.ord] {
+			func() {
+				defer func() {
+					if r := recover(); r != nil {
+						if _, ok := r.(specErr); !ok {
+							panic(r)
+						}
+					}
+				}()
+				for _, l := range env2.locations(m) {
+					li.allowed[l.name] = append(li.allowed[l.name], l)
+				}
+			}()
+		}
+	}
 	li.headSt = nst.clone()
 	f.entrySt = nst
 	for _, cl := range invs {
@@ -991,9 +1039,13 @@ func (f *Frame) frameObls(cur, base *State, allowed map[string][]location, label
 			hyps = append(hyps, Ne(i, l.idx[0]))
 		}
 		if idxSort(c.Sort) == SInt {
-			for _, n := range vc.news {
-				hyps = append(hyps, Ne(i, n))
+			// only objects that already existed in the base state are visible to the environment:
+			// everything allocated since then (not in the base state's ghost set alloc) may differ
+			ab, ok := base.H["G.alloc"]
+			if !ok {
+				ab = vc.heapInit("G.alloc", ArrSort(SInt, SBool))
 			}
+			hyps = append(hyps, Select(ab, i))
 		}
 		vc.addObl(&Obligation{Name: fmt.Sprintf("frame[%s]%s", k, label), Kind: "frame", Goal: Eq(Select(c, i), Select(b, i)), Hyps: hyps, Guard: guard,
 			Src: "only locations listed in modifies (or freshly allocated) may differ in " + k, Where: where})
